@@ -374,7 +374,15 @@ impl Check for C05 {
                 vars_of(t, &mut mentioned);
             }
             vars_of(&t2u, &mut mentioned);
-            if mentioned.iter().all(|n| defined.contains(&n)) {
+            // ... and before un-priming, the new definitions must mention new names only:
+            // an old name could otherwise be captured by an un-primed definition of the
+            // same name and change meaning
+            let mut raw: Vec<String> = vec![];
+            for (_, t) in &env.defs[names.len()..] {
+                vars_of(t, &mut raw);
+            }
+            let pure = raw.iter().all(|n| n.strip_suffix("_new").map(|b| names.iter().any(|k| k == b)).unwrap_or(false));
+            if pure && mentioned.iter().all(|n| defined.contains(&n)) {
                 split = Some((old_env, new_env, t2u));
             }
             (prime(&t1, &names), "primed-copy")
